@@ -38,7 +38,7 @@ SMALL_ITEMS = [
     ["-g3"], ["-O2"], ["-ccbin", "g++"], ["-MF", "x.d"], ["a.c"], ["-Wall"], ["-c"], ["-o", "a.o"],
     ["-std=c++17"], ["-O"],
 ]
-SMALL_FINDING_ITEMS = [["-isystem/d"], ["-includef.h"], ["-I", "-d"], ["-I=d"], ["-D--"], ["-i"]]
+SMALL_FINDING_ITEMS = [["-isystem/d"], ["-includef.h"], ["-I", "-d"], ["-I=d"], ["-D--"], ["-i"], ["-is", "d"]]
 
 REAL_CCS = ["gcc", "g++", "clang", "clang++", "icx", "icpx", "nvcc"]
 
@@ -168,7 +168,9 @@ class C11(Check):
             "'=', quotes, blanks, leading dashes, shell metacharacters) with entries of a catalogue of 172 real gcc/clang/icx/"
             "nvcc/gfortran options CBI does not model; all vectors of <= 3 (quick) / 4 (thorough) items over a 16-item pool "
             "exhaustively, plus known-finding spellings at every position of short vectors, random vectors of 4-30 items, a "
-            "malformed stream (abbreviations, '--', missing values, clusters, random punctuation) that is compared with M only, "
+            "malformed stream (abbreviations, '--', missing values, clusters, random punctuation, every '-'-token of <= 4/5 letters "
+            "over a 12-letter alphabet) that is compared with M only, the same grammar under the seven built-in compiler names "
+            "(I vs S only), "
             "and raw strings for shlex.split (exhaustive over a 7-letter alphabet up to length 4/6 + random).  Every vector is "
             "also rendered with shlex.join and read back through CompileCommand(command=...) and config.load_database.  "
             "Non-trivial = at least one recognised option AND at least one other argument")
@@ -252,7 +254,7 @@ class C11(Check):
                 base = [list(SMALL_ITEMS[i]) for i in combo]
                 for f in SMALL_FINDING_ITEMS:
                     for pos in range(n + 1):
-                        out.append(argv_case(base[:pos] + [list(f)] + base[pos:], f != ["-i"]))
+                        out.append(argv_case(base[:pos] + [list(f)] + base[pos:], True))
         # 3. every catalogue entry between two recognised options, and every value of every pool in both spellings
         for e in CATALOGUE:
             out.append(argv_case([["-DA"], list(e), ["-I", "inc"], list(e), ["-include", "f.h"]], True, True))
@@ -287,6 +289,17 @@ class C11(Check):
         # 5. malformed stream (outside the quantifier: compared with M only)
         for i in range(2000 if quick else 30000):
             out.append(argv_case(self.malformed_vector(), False))
+        # 5b. every single token over a 12-letter alphabet up to length 4 (quick) / 5 (thorough), alone, before a plain
+        #     argument and between two recognised options (outside the quantifier: compared with M only)
+        tok_alpha = "-=iDIogsn1. "
+        for n in range(1, (4 if quick else 5) + 1):
+            for combo in itertools.product(tok_alpha, repeat=n):
+                t = "".join(combo)
+                if not t.startswith("-"):
+                    continue
+                out.append(argv_case([[t]], False, False))
+                out.append(argv_case([[t], ["x"]], False, False))
+                out.append(argv_case([["-DA"], [t], ["-IB"]], False, False))
         # 6. raw command strings for shlex.split
         alpha = "a '\"\\\t-"
         lim3 = 4 if quick else 6
@@ -510,12 +523,13 @@ class C11(Check):
         inst = class_instances(argv, const)
         if not inst:
             return None
-        # the findings describe a normal return (or the caught ArgumentError for dash-value / const-flag-eq, or
-        # SystemExit for the ambiguous abbreviation -i): any other way of failing is a different defect
+        # the findings describe a normal return, or the caught ArgumentError for dash-value / const-flag-eq / the
+        # ambiguous abbreviation -i: any other way of failing (an exception, SystemExit) is a different defect
         how = ia[0][0]
         kinds = {c for c, _ in inst}
-        if how not in ("Ok", "ArgErr", "SystemExit") or (how == "ArgErr" and not kinds & {"dash-value", "const-flag-eq"}) \
-                or (how == "SystemExit" and "-i" not in argv):
+        if how not in ("Ok", "ArgErr"):
+            return None
+        if how == "ArgErr" and not (kinds & {"dash-value", "const-flag-eq"} or ("abbrev" in kinds and "-i" in argv)):
             return None
         if not is_cc and (ia[1] != shlex.join(argv) or ia[2] != ["Ok", argv]):
             return None
